@@ -634,7 +634,7 @@ impl PredecessorTree {
     @fn_start
         let ghost s0 = s;
         let ghost pr = self.pred@;
-    @before `return Some(`
+    @before `return Some(vec![s])`
         proof {
             lemma_init(pr, is_target, s0, Seq::new(pr.len(), |i: int| false), seq![s0]);
             lemma_hit(pr, is_target, s0, 0, s0, Seq::new(pr.len(), |i: int| false), seq![s0]);
@@ -657,7 +657,7 @@ impl PredecessorTree {
         inv(pr, is_target, s0, k, s, visited@, path@),
     decreases
         count_false(visited@),
-    @before #2 `return Some(`
+    @before `return Some(path)`
         proof {
             lemma_hit(pr, is_target, s0, k, s, visited@, path@);
         }
@@ -883,7 +883,7 @@ impl<'a> DijkstraPred<'a> {
             }
             seen = seen.insert(x as int);
         }
-    @before `if distance`
+    @before `if distance ==`
         proof {
             assert forall|y: int| dg.has(um, y) implies seen.contains(y) by {
                 if um == v as int { assert(dg.has(v as int, y)); }
